@@ -21,10 +21,16 @@ EXHAUSTIVE = {'quick': False, 'thorough': False}
 NOTES = ['sweep: 1D rings N in 1..5 with r in 1..min(N,2), 2D grids up to 3x3 (thorough 4x4) with both neighbourhood types, '
          'H in 1..3, dtypes int32/int64/uint8/float64, predicates constant-false / t<k / scripted answers / '
          'until_fixed_point, memoize in False/True/recursive for the pure family',
+         'bucket ufp/float_tiny: float automata whose consecutive states differ by a few units of 2^-40 (far below any '
+         'tolerance-based comparison) for k >= 3 steps before the exact repeat; rules: creep-to-a-ceiling (pure, all '
+         'memoize modes), Lin on the integer units (all modes), Script rows (memoize=False); 1D and 2D',
          'until_fixed_point cases are generated only when a reference simulation of the twin rule reaches a repeat '
          'within 12 steps; the Coq side has fuel 64']
 ASSUMPTIONS = ['rule results are representable in the automaton dtype',
-               'float automata carry integer-valued floats',
+               'float automata carry integer-valued floats, except the dyadic buckets (ufp/float_tiny, dyadic/*): there '
+               'the cells are base + j * 2^-40 (exactly representable in float64; float32 with base 0) and the model works on '
+               'the integers j - an injective rescaling, so equality of rows is preserved; observed values are converted '
+               'back exactly ((v - base) * 2^40 must be an integer, otherwise the case counts as a disagreement)',
                'predicates terminate (a run that never declines has no model value: fuel 64, excluded by the generators)',
                'memoised runs are made with pure rules only and compared with the plain-engine model '
                '(transparency of the memo engines is C03/C04)']
@@ -51,6 +57,8 @@ class _Sim:
             v = ru['vs'][self.i] if self.i < len(ru['vs']) else 0
             self.i += 1
             return v
+        if ru['fam'] == 'capinc':
+            return min(max([0] + list(n)) + 1, ru['cap'])
         s = sum(w * x for w, x in zip(ru['ws'], n))
         if ru['fam'] == 'linct':
             s += (3 * cidx + 5 * t) if self.c['dim'] == 1 else (3 * cidx[0] + 7 * cidx[1] + 5 * t)
@@ -162,6 +170,12 @@ def generate(rng, tier):
                                             dim, shape, r, nb, H, dtype, fam, memo, pred)
                                     if c is not None:
                                         yield c
+    # float automata with dyadic states that creep by units of 2^-40
+    for c in tiny_cases(rng, tier):
+        yield c
+        if rng.random() < 0.25:      # the same automaton under the other predicates
+            tag, pred = rng.choice(_preds(rng, tier)[:4])
+            yield dict(c, kind='dyadic/%dd/%s' % (c['dim'], tag), pred=pred)
     # random larger ones
     n_rand = 200 if tier == 'quick' else 3000
     for _ in range(n_rand):
@@ -184,6 +198,108 @@ def generate(rng, tier):
         if c is not None:
             yield c
 
+
+
+# ---------------------------------------------------------------- dyadic float automata
+SCALE = 2.0 ** 40
+
+
+class CapInc:
+    """pure: min(max(neighbourhood, 0) + 1, cap); twin of Corr/C06.v capinc (2D: over the unmasked entries)"""
+    def __init__(self, cap, dim):
+        self.cap, self.dim = cap, dim
+
+    def __call__(self, n, c, t):
+        from harness.twins import unmasked2
+        vals = [int(x) for x in np.asarray(n).ravel()] if self.dim == 1 else unmasked2(n)
+        return min(max([0] + vals) + 1, self.cap)
+
+
+def to_units(a, base):
+    """(a - base) * 2^40 as exact integers (int64 array); None if some value is not of that form"""
+    d = (np.asarray(a, dtype=np.float64) - base) * SCALE
+    if not np.all(np.isfinite(d)) or not np.all(d == np.round(d)):
+        return None
+    return np.round(d).astype(np.int64)
+
+
+class Dyadic:
+    """runs an integer-unit twin on a float automaton whose cells are base + j * 2^-40"""
+    def __init__(self, f, base):
+        self.f, self.base = f, base
+
+    def __call__(self, n, c, t):
+        if isinstance(n, np.ma.MaskedArray):
+            u = to_units(n.data, self.base)
+            assert u is not None, 'neighbourhood is not dyadic'
+            nn = np.ma.array(u, mask=np.ma.getmaskarray(n))
+        else:
+            nn = to_units(n, self.base)
+            assert nn is not None, 'neighbourhood is not dyadic'
+        return self.base + int(self.f(nn, c, t)) / SCALE
+
+
+def build_ca(c):
+    """the caller's array of a case (hist is in integer units for dyadic cases)"""
+    if c.get('base') is None:
+        return np.array(c['hist'], dtype=c['dtype'])
+    exact = c['base'] + np.array(c['hist'], dtype=np.float64) / SCALE
+    ca = exact.astype(c['dtype'])
+    assert np.array_equal(ca.astype(np.float64), exact), 'dyadic states are not exactly representable'
+    back = to_units(ca, c['base'])
+    assert back is not None and back.tolist() == np.array(c['hist']).tolist()
+    return ca
+
+
+def build_rule(c):
+    ru = c['rule']
+    f = CapInc(ru['cap'], c['dim']) if ru['fam'] == 'capinc' else make_rule(ru, c['dim'])
+    return f if c.get('base') is None else Dyadic(f, c['base'])
+
+
+def conv(c, a):
+    """an observed array as nested lists of model integers (None when it cannot be)"""
+    if c.get('base') is None:
+        return ints(np.asarray(a).tolist())
+    u = to_units(a, c['base'])
+    return None if u is None else u.tolist()
+
+
+def coq_rspec(ru):
+    if ru['fam'] == 'capinc':
+        return '(RCap %s)' % cz(ru['cap'])
+    return '(RS %s)' % coq_rule_spec(ru)
+
+
+def tiny_cases(rng, tier):
+    """bucket ufp/float_tiny"""
+    reps = 4 if tier == 'quick' else 20
+    confs = [(1, N, r, '-') for N in (1, 2, 3, 5) for r in (1, 2) if r <= N] + \
+            [(2, sh, 1, nb) for sh in ((1, 1), (1, 3), (2, 2), (3, 2), (3, 3)) for nb in ('Moore', 'von Neumann')]
+    i = rng.randrange(100)
+    for _ in range(reps):
+        for dim, shape, r, nb in confs:
+            ncells = shape if dim == 1 else shape[0] * shape[1]
+            for fam, memo in (('capinc', False), ('capinc', True), ('capinc', 'recursive'),
+                              ('lin', False), ('lin', True), ('lin', 'recursive'), ('script', False)):
+                i += 1
+                dtype, base = [('float64', 1.0), ('float64', 0.0), ('float32', 0.0), ('float64', -3.0),
+                               ('float64', 1024.0)][i % 5]
+                for _try in range(40):
+                    if fam == 'capinc':
+                        rule = {'fam': 'capinc', 'cap': rng.randint(3, 9)}
+                    elif fam == 'script':
+                        rows = rng.randint(2, 5)
+                        rule = {'fam': 'script', 'vs': [rng.randint(0, 4) for _ in range(rows * ncells)]}
+                    else:
+                        rule = rand_rule(rng, 'lin', dim, r, nb, ncells, dtype, small=True)
+                    c = {'kind': 'ufp/float_tiny/%dd/%s/%s' % (dim, fam, 'memo' if memo else 'plain'), 'dim': dim, 'r': r,
+                         'nb': nb, 'dtype': dtype, 'base': base, 'memo': memo, 'pred': {'kind': 'ufp'},
+                         'hist': [rand_state(rng, dim, shape, 'uint8', hi=2) for _ in range(1 + i % 3)], 'rule': rule}
+                    k = steps_to_repeat(c)
+                    if k is not None and k >= 3:
+                        yield c
+                        break
 
 # ---------------------------------------------------------------- implementation
 class Capped:
@@ -226,19 +342,19 @@ def call_evolve(cpl, c, ca, timesteps, rule):
 
 def run_impl(c):
     import cellpylib as cpl
-    ca = np.array(c['hist'], dtype=c['dtype'])
+    ca = build_ca(c)
     pred = make_pred(cpl, c['pred'])
-    res = call_impl(lambda: call_evolve(cpl, c, ca, pred, make_rule(c['rule'], c['dim'])))
+    res = call_impl(lambda: call_evolve(cpl, c, ca, pred, build_rule(c)))
     if res[0] != 'ok':
         return list(res)
     out = np.asarray(res[1])
-    o = {'out': ints(out.tolist()), 'plog': [[ints(s), int(t)] for (s, t) in pred.log],
+    o = {'out': conv(c, out), 'plog': [[conv(c, s), int(t)] for (s, t) in pred.log],
          'shape': [int(x) for x in out.shape], 'dtype': str(out.dtype)}
     # the sentence "equals the fixed-count evolution of the same length", on the implementation alone
     k1 = len(pred.log)
-    ca2 = np.array(c['hist'], dtype=c['dtype'])
-    ref = call_impl(lambda: call_evolve(cpl, c, ca2, k1, make_rule(c['rule'], c['dim'])))
-    o['fixed'] = ints(np.asarray(ref[1]).tolist()) if ref[0] == 'ok' else ref[1]
+    ca2 = build_ca(c)
+    ref = call_impl(lambda: call_evolve(cpl, c, ca2, k1, build_rule(c)))
+    o['fixed'] = conv(c, ref[1]) if ref[0] == 'ok' else ref[1]
     return ['ok', o]
 
 
@@ -269,8 +385,8 @@ def to_coq(c, obs):
     else:
         o = cres(obs, str)
     if one:
-        return '(C1 %s %s %s %s %s)' % (coq_rule_spec(c['rule']), cnat(c['r']), cgrid(c['hist']), cpredspec(c['pred']), o)
-    return '(C2 %s %s %s %s %s %s)' % (coq_rule_spec(c['rule']), cnat(c['r']),
+        return '(C1 %s %s %s %s %s)' % (coq_rspec(c['rule']), cnat(c['r']), cgrid(c['hist']), cpredspec(c['pred']), o)
+    return '(C2 %s %s %s %s %s %s)' % (coq_rspec(c['rule']), cnat(c['r']),
                                         'Moore' if c['nb'] == 'Moore' else 'VonNeumann',
                                         chist(c['hist']), cpredspec(c['pred']), o)
 
@@ -334,7 +450,7 @@ def shrink(c):
         yield dict(c, memo=False)
     if len(c['hist']) > 1:
         yield dict(c, hist=c['hist'][1:])
-    if c['dtype'] != 'int64':
+    if c['dtype'] != 'int64' and c.get('base') is None:
         yield dict(c, dtype='int64')
     p = c['pred']
     if p['kind'] == 'lt' and p['k'] > 0:
